@@ -97,9 +97,6 @@ func runTsp(w *tr.W, p tspPlan) (writes int) {
 			}
 			lines = append(lines, f)
 		}
-		if len(txt) > 20000 {
-			lines = [][]string{}
-		}
 		w.Emit(tr.E{"ev": "Ret", "err": err != nil, "res": res, "lines": lines})
 	}
 	return pw.calls
@@ -152,6 +149,25 @@ func driveC20(c *Ctx) {
 					}
 				}
 			}
+		}
+	}
+	// larger instances: fault-free output and a few fault positions (size-dependent behaviour of the writer path)
+	big := []int{7, 8, 9, 10, 11, 12, 17, 33, 46, 64, 90}
+	if c.Thorough() {
+		big = append(big, 47, 65, 128, 150, 200)
+	}
+	for k, n := range big {
+		wn := []string{"sum", "huge", "neg"}[k%3]
+		base := tspPlan{N: n, W: wn, At: 0, Kind: "fail"}
+		W := runTsp(nil, base)
+		wcount[fmt.Sprintf("n=%d,w=%s", n, wn)] = W
+		runTsp(set.Begin(base.key(), tr.E{"input": base}), base)
+		plans++
+		for _, at := range []int{4, W / 2, W - 1, W, W + 1} {
+			p := tspPlan{N: n, W: wn, At: at, Kind: []string{"fail", "short"}[at%2], Perm: false}
+			runTsp(set.Begin(p.key(), tr.E{"input": p}), p)
+			plans++
+			weightSection++
 		}
 	}
 	meta["plans"] = plans
